@@ -32,11 +32,12 @@ BadInput(p)  == sit[p].input \in {"missing", "directory", "empty", "blank", "unr
 ParseFail(p) == sit[p].input \in {"syntax", "model"}
 Undecodable(p) == sit[p].input = "undecodable"      \* bytes that are not UTF-8
 LibExit(p) == FALSE      \* (was: a report definition the library refuses with sys.exit; since F44 own reports are not generated at all)
-EmitFail(p) == sit[p].out \in {"exists", "baddir", "brokenpipe"}
-FromStdin(p) == sit[p].channel \in {"stdin", "dash"}
 \* faults from outside: "sigint" = the user interrupts the run at an arbitrary point; "fsize" = a temporary copy cannot be
 \* written completely (disk full / RLIMIT_FSIZE): the file exists by then and has to go like every other
 Fault(p) == IF "fault" \in DOMAIN sit[p] THEN sit[p].fault ELSE "none"
+\* "fsizeout": the --output file cannot be written completely (disk full / file size limit): no truncated file stays behind
+EmitFail(p) == sit[p].out \in {"exists", "baddir", "brokenpipe"} \/ (Fault(p) = "fsizeout" /\ sit[p].out \in {"newfile", "force"})
+FromStdin(p) == sit[p].channel \in {"stdin", "dash"}
 \* stdin cannot deliver a missing file or a directory: those situations read an empty stream
 Reports(p) == {<<"auto", sit[p].format>>}      \* only the command's own report is generated (F44), whatever sit[p].own says
 
@@ -104,7 +105,9 @@ Lost(p) == /\ pc[p] \in {"auto", "ran"} /\ Name(p, "outdir") \notin DOMAIN outdi
 \* the half-written copy is removed with everything else
 WriteFail(p) == pc[p] = "wfail" /\ Fail(p, 2)
 \* Ctrl-C between any two steps (the process is alive, nothing or everything may exist already)
-Interrupt(p) == /\ Fault(p) = "sigint" /\ pc[p] \in {"hashed", "outdir", "auto", "ran"} /\ Fail(p, 130)
+\* ... or a supervisor / a closing terminal ends it (SIGTERM, SIGHUP): the same clean-up is owed
+Signals == {"sigint", "sigterm", "sighup"}
+Interrupt(p) == /\ Fault(p) \in Signals /\ pc[p] \in {"hashed", "outdir", "auto", "ran"} /\ Fail(p, 130)
 
 Next == \E p \in Procs : ReadInput(p) \/ MkOutDir(p) \/ MkAuto(p) \/ Run(p) \/ Emit(p) \/ Cleanup(p) \/ Lost(p) \/ WriteFail(p) \/ Interrupt(p)
 Spec == Init /\ [][Next]_vars /\ WF_vars(Next)
@@ -120,12 +123,12 @@ WantExit(p) == IF BadInput(p) THEN 1 ELSE IF ParseFail(p) \/ LibExit(p) \/ Undec
 \* the wanted status or a failure status is accepted -- but nothing may stay behind (NoTrace) and stdout carries the report or nothing
 \* an interrupted run: the statement names no status for it (the shell convention is 130, click's is 1); the run may also
 \* have got through before the signal arrived
-AllowedExit(p) == IF Fault(p) = "sigint" THEN {WantExit(p), 1, 130} ELSE
+AllowedExit(p) == IF Fault(p) \in Signals THEN {WantExit(p), 1, 2, 129, 130, 143} ELSE      \* (2: the run the signal ended counts as a failed generation)
                   IF sit[p].out = "stderrfull" THEN {WantExit(p), 1, 2} ELSE
                   IF sit[p].own = "badname" /\ WantExit(p) = 0 THEN {0, 2} ELSE
                   IF Undecodable(p) THEN {1, 2} ELSE IF ~BadInput(p) /\ ~ParseFail(p) /\ ~LibExit(p) /\ sit[p].out = "exists" THEN {2, 3} ELSE {WantExit(p)}
 ExitContract == \A p \in Procs : pc[p] = "exited" =>
-   /\ exit[p] = WantExit(p) \/ (Fault(p) = "sigint" /\ exit[p] = 130)
+   /\ exit[p] = WantExit(p) \/ (Fault(p) \in Signals /\ exit[p] = 130)
    /\ stdout[p] = (IF exit[p] = 0 /\ sit[p].out \in {"stdout", "stderrfull"} THEN "auto" ELSE "none")
    /\ written[p] = (IF exit[p] = 0 /\ sit[p].out \notin {"stdout", "stderrfull"} THEN "auto" ELSE "none")
    /\ (exit[p] # 0 => stderr[p])
